@@ -134,6 +134,15 @@ def run_batch(ctx, tag, batch):
             r = out['m%d' % i]
             if r[0] == 'inl': batch[i]['match'] = ('elab', r[1])
             else: batch[i]['match'] = ('ok', len(terms), unmod) if not r[1] else ('missing', [terms[k][0] for k in r[1]], unmod)
+    # (c) the proved validator: match_flat = true (decided by vm_compute) puts the design under C01_vsim_compose — Verilog = kernel run for
+    #     EVERY stimulus — and the kernel design built from the same terms must reproduce the real simulator's trace on this stimulus
+    try:
+        from props import c01_compose
+        live = [b for b in batch if b['sim'][0] != 'parse' and None not in b['trace']]
+        for b, v in zip(live, c01_compose.check(tag + '_compose', live, with_trace=True)):
+            b['compose'] = v
+    except Exception as ex:
+        for b in batch: b.setdefault('compose', ('error', '%s: %s' % (type(ex).__name__, ex)))
     return batch
 
 
@@ -192,12 +201,13 @@ def run(ctx):
     ctx.cov['rule'] = ('program = one library block (random legal widths/parameters) or one random netlist wrapped in a top module, emitted by the real '
                        'generator as a hierarchy; distinct by (label, port widths, emitted text hash); non-trivial = has at least one output that changes over the stimulus')
     missing = ctx.regen(NEEDED)
-    r = ctx.prove(['Properties/C01.v'])
+    r = ctx.prove(['Properties/C01.v', 'Properties/C01Compose.v'])
     rng = random.Random(ctx.seed)
     known_witnesses(ctx)
     cat = blocks.catalogue(rng, ctx.tier)
     n_rand = 24 if ctx.quick else 200
     batch, programs, bad, tie_only = [], 0, [], []
+    comp_stats = {}
     def flush(tag):
         nonlocal batch
         if not batch: return
@@ -207,8 +217,11 @@ def run(ctx):
             ctx.count(key, n=len(b['steps']), nontrivial=changing)
             if len(ctx.cov['samples']) < 4:
                 ctx.sample({'design': b['label'], 'ports': b['ins'], 'first_step': b['steps'][0], 'impl_trace_head': b['trace'][:3], 'text_head': b['text'][:300]})
+            cv = b.get('compose', ('notrun',))
+            comp_stats[cv[0]] = comp_stats.get(cv[0], 0) + 1
             if b['sim'] != ('ok',): bad.append(b)
             elif b.get('match') and b['match'][0] != 'ok': tie_only.append(b)
+            elif cv[0] in ('nomatch', 'kernel-differs', 'error'): tie_only.append(b)
         batch = []
     k = 0
     for label, ins, outs, body in cat:
@@ -229,6 +242,8 @@ def run(ctx):
         if len(batch) >= 12: flush('C01_r%d' % k); k += 1
     flush('C01_r%d' % k)
     ctx.cov['programs'] = programs
+    ctx.notes['composition_theorem_verdicts'] = comp_stats      # ok = under C01_vsim_compose (all stimuli); notcovered/guard = execution only
+    ctx.cov['programs_under_composition_theorem'] = comp_stats.get('ok', 0)
     ctx.cov['disagreements_checked'] = len(bad) + len(tie_only)
     for b in bad:
         ctx.violation({'what': 'emitted Verilog, executed under the Coq 1364 semantics, differs from the simulator (or is outside the emitted subset)',
@@ -238,7 +253,7 @@ def run(ctx):
         broken = []
         if missing: broken.append('translator rejected %s' % missing)
         if not r['ok']: broken.append('proof obligation no longer checks: %s in %s' % (r.get('lemma'), r.get('file')))
-        for b in tie_only: broken.append('emitter model no longer matches the emitted text for %s: %r' % (b['label'], b['match']))
+        for b in tie_only: broken.append('emitter model / validator no longer matches the emitted text for %s: match=%r compose=%r' % (b['label'], b.get('match'), b.get('compose')))
         if broken:
             # the executions above were the search (every design ran under the Verilog semantics against the simulator) and found nothing
             ctx.violation({'what': '; '.join(broken)[:3000], 'theorem': r.get('lemma'), 'file': r.get('file'), 'coq_error': r.get('msg')}, found_input=False)
